@@ -155,8 +155,194 @@ Proof.
   intros Hok Hm Hv. unfold validate_at. rewrite (meta_roundtrip m pre post Hok).
   unfold with_sum; cbn [m_magic m_version m_sum].
   rewrite Hm, Hv, !N.eqb_refl. cbn [negb].
-  unfold meta_sum_at, enc_meta.
+  unfold meta_sum_at, enc_meta. rewrite fnv64a_fast_eq.
   replace 56%nat with (length (enc_meta_body m)) by apply enc_meta_body_length.
   rewrite <- app_assoc. rewrite rbytes_app.
   now rewrite N.eqb_refl.
 Qed.
+
+(** * a single altered byte anywhere in the 64-byte meta structure is detected (C11) *)
+Definition le_list (l : list N) : N := fold_right (fun b acc => b + 256 * acc) 0 l.
+
+Lemma le_rd_list l : forall pre post,
+  le (rd_of (pre ++ l ++ post)) (length l) (N.of_nat (length pre)) = le_list l.
+Proof.
+  induction l as [|x l IH]; intros pre post; [reflexivity|].
+  cbn [length le le_list fold_right]. f_equal.
+  - unfold rd_of. rewrite Nat2N.id. rewrite app_nth2 by lia. rewrite Nat.sub_diag. reflexivity.
+  - f_equal.
+    replace (N.of_nat (length pre) + 1) with (N.of_nat (length (pre ++ [x]))) by (rewrite app_length; simpl; lia).
+    replace (pre ++ (x :: l) ++ post) with ((pre ++ [x]) ++ l ++ post) by (rewrite <- app_assoc; reflexivity).
+    apply IH.
+Qed.
+
+Lemma le_list_inj l1 : forall l2, length l1 = length l2 -> Forall isbyte l1 -> Forall isbyte l2 ->
+  le_list l1 = le_list l2 -> l1 = l2.
+Proof.
+  induction l1 as [|a l1 IH]; intros [|b l2] HL F1 F2 E; simpl in HL; try discriminate; [reflexivity|].
+  inversion F1; subst. inversion F2; subst. cbn [le_list fold_right] in E.
+  unfold isbyte in *. fold (le_list l1) in E. fold (le_list l2) in E.
+  assert (a = b /\ le_list l1 = le_list l2) as [-> E2] by lia.
+  f_equal. apply IH; auto.
+Qed.
+
+(** the four fields that matter, as segments of the structure *)
+Definition valid_segments (A B C D : list N) : Prop :=
+  le_list A = magic /\ le_list B = version /\ le_list D = fnv64a (A ++ B ++ C).
+
+Lemma validate_segments pre post A B C D :
+  length A = 4%nat -> length B = 4%nat -> length C = 48%nat -> length D = 8%nat ->
+  (validate_at (rd_of (pre ++ (A ++ B ++ C ++ D) ++ post)) (N.of_nat (length pre)) = MOk <-> valid_segments A B C D).
+Proof.
+  intros LA LB LC LD. unfold validate_at, valid_segments, rd_meta_at, u32, u64.
+  cbn [m_magic m_version m_sum].
+  assert (E1 : le (rd_of (pre ++ (A ++ B ++ C ++ D) ++ post)) 4 (N.of_nat (length pre)) = le_list A).
+  { rewrite <- LA at 1. rewrite <- !app_assoc. apply le_rd_list. }
+  assert (E2 : le (rd_of (pre ++ (A ++ B ++ C ++ D) ++ post)) 4 (N.of_nat (length pre) + 4) = le_list B).
+  { replace (N.of_nat (length pre) + 4) with (N.of_nat (length (pre ++ A))) by (rewrite app_length, LA; lia).
+    rewrite <- LB at 1. rewrite <- !app_assoc. rewrite (app_assoc pre A). apply le_rd_list. }
+  assert (E3 : le (rd_of (pre ++ (A ++ B ++ C ++ D) ++ post)) 8 (N.of_nat (length pre) + 56) = le_list D).
+  { replace (N.of_nat (length pre) + 56) with (N.of_nat (length (pre ++ A ++ B ++ C))) by (rewrite !app_length, LA, LB, LC; lia).
+    rewrite <- LD at 1. rewrite <- !app_assoc.
+    replace (pre ++ A ++ B ++ C ++ D ++ post) with ((pre ++ A ++ B ++ C) ++ D ++ post) by (rewrite <- !app_assoc; reflexivity).
+    apply le_rd_list. }
+  assert (E4 : meta_sum_at (rd_of (pre ++ (A ++ B ++ C ++ D) ++ post)) (N.of_nat (length pre)) = fnv64a (A ++ B ++ C)).
+  { unfold meta_sum_at. rewrite fnv64a_fast_eq. f_equal.
+    replace 56%nat with (length (A ++ B ++ C)) by (rewrite !app_length, LA, LB, LC; reflexivity).
+    replace (pre ++ (A ++ B ++ C ++ D) ++ post) with (pre ++ (A ++ B ++ C) ++ (D ++ post)) by (rewrite <- !app_assoc; reflexivity).
+    apply rbytes_app. }
+  rewrite E1, E2, E3, E4.
+  destruct (N.eqb_spec (le_list A) magic); simpl; [|split; [discriminate | tauto]].
+  destruct (N.eqb_spec (le_list B) version); simpl; [|split; [discriminate | tauto]].
+  destruct (N.eqb_spec (le_list D) (fnv64a (A ++ B ++ C))); simpl; [tauto | split; [discriminate | tauto]].
+Qed.
+
+(** one byte of a segment replaced by a different byte *)
+Inductive one_byte_changed : list N -> list N -> Prop :=
+| obc : forall l1 b b' l2, isbyte b -> isbyte b' -> b <> b' -> one_byte_changed (l1 ++ b :: l2) (l1 ++ b' :: l2).
+
+Lemma obc_length l l' : one_byte_changed l l' -> length l = length l'.
+Proof. intros []. rewrite !app_length. reflexivity. Qed.
+
+Lemma obc_le_list l l' : one_byte_changed l l' -> Forall isbyte l -> le_list l <> le_list l'.
+Proof.
+  intros H F E. pose proof (obc_length _ _ H) as HL. destruct H as [l1 b b' l2 Hb Hb' Hne].
+  assert (F' : Forall isbyte (l1 ++ b' :: l2)).
+  { apply Forall_app in F. destruct F as [Fa Fb]. inversion Fb; subst. apply Forall_app. split; [exact Fa | constructor; assumption]. }
+  apply le_list_inj in E; auto. apply app_inv_head in E. inversion E. congruence.
+Qed.
+
+Theorem single_byte_damage_detected A B C D A' B' C' D' :
+  length A = 4%nat -> length B = 4%nat -> length C = 48%nat -> length D = 8%nat ->
+  Forall isbyte (A ++ B ++ C ++ D) ->
+  valid_segments A B C D ->
+  (one_byte_changed A A' /\ B' = B /\ C' = C /\ D' = D) \/
+  (A' = A /\ one_byte_changed B B' /\ C' = C /\ D' = D) \/
+  (A' = A /\ B' = B /\ one_byte_changed C C' /\ D' = D) \/
+  (A' = A /\ B' = B /\ C' = C /\ one_byte_changed D D') ->
+  ~ valid_segments A' B' C' D'.
+Proof.
+  intros LA LB LC LD F (V1 & V2 & V3) H (W1 & W2 & W3).
+  apply Forall_app in F. destruct F as [FA F]. apply Forall_app in F. destruct F as [FB F].
+  apply Forall_app in F. destruct F as [FC FD].
+  destruct H as [(H & -> & -> & ->)|[(-> & H & -> & ->)|[(-> & -> & H & ->)|(-> & -> & -> & H)]]].
+  - apply (obc_le_list _ _ H FA). congruence.
+  - apply (obc_le_list _ _ H FB). congruence.
+  - (* the checksummed content changed in one byte: FNV-1a changes (Fnv.single_byte_change) *)
+    destruct H as [c1 b b' c2 Hb Hb' Hne].
+    apply Forall_app in FC. destruct FC as [Fc1 Fc2]. inversion Fc2; subst.
+    match goal with Hc2 : Forall isbyte c2 |- _ =>
+      refine (single_byte_change (A ++ B ++ c1) b b' c2 fnv_offset _ _ Hb Hb' Hc2 Hne _) end.
+    + reflexivity.
+    + apply Forall_app; split; [exact FA | apply Forall_app; split; assumption].
+    + unfold fnv64a in V3, W3. rewrite <- !app_assoc. rewrite <- V3, <- W3. reflexivity.
+  - apply (obc_le_list _ _ H FD). congruence.
+Qed.
+
+(** * Open: which meta is presented (C11) *)
+Section OpenProofs.
+  Variable rd : N -> N.
+  Variable flen dps : N.
+
+  Definition valid0 := validate_at rd page_header_size = MOk.
+  Definition valid1 (ps : N) := validate_at rd (ps + page_header_size) = MOk.
+  Definition meta0 := rd_meta_at rd page_header_size.
+  Definition meta1 (ps : N) := rd_meta_at rd (ps + page_header_size).
+
+  (** Open never presents a state through a meta page that fails validation, never a file shorter than two
+      pages or than its own high-water mark *)
+  Theorem open_ok_uses_valid_meta ps m : open_model rd flen dps = OpenOk ps m ->
+    ((m = meta0 /\ valid0) \/ (m = meta1 ps /\ valid1 ps)) /\ 2 * ps <= flen /\ m_mark m * ps <= flen.
+  Proof.
+    unfold open_model, valid0, valid1, meta0, meta1.
+    destruct (page_size_model rd flen dps (validate_at rd page_header_size)) as [ps0|]; [|discriminate].
+    destruct (N.ltb_spec flen (2 * ps0)); [discriminate|].
+    destruct (validate_at rd page_header_size) eqn:V0; destruct (validate_at rd (ps0 + page_header_size)) eqn:V1;
+      cbn [negb orb]; try discriminate; intros E;
+      repeat match type of E with context [if ?c then _ else _] => destruct c eqn:? end; try discriminate;
+      inversion E; subst; clear E.
+    all: split; [first [left; split; [reflexivity | first [reflexivity | assumption]]
+                       | right; split; [reflexivity | first [reflexivity | assumption]]]
+                | split; [lia | apply N.ltb_ge; assumption]].
+  Qed.
+
+  (** both invalid: Open returns an error *)
+  Theorem open_rejects_when_both_invalid :
+    ~ valid0 -> (forall ps, ~ valid1 ps) -> forall ps m, open_model rd flen dps <> OpenOk ps m.
+  Proof.
+    intros H0 H1 ps m E. apply open_ok_uses_valid_meta in E. destruct E as [[[_ V]|[_ V]] _]; [exact (H0 V) | exact (H1 _ V)].
+  Qed.
+
+  (** exactly one invalid, page size detected, file long enough: Open succeeds with the other one *)
+  Theorem open_falls_back_to_the_valid_meta ps :
+    page_size_model rd flen dps (validate_at rd page_header_size) = Some ps -> 2 * ps <= flen ->
+    (valid0 /\ ~ valid1 ps /\ m_mark meta0 * ps <= flen -> open_model rd flen dps = OpenOk ps meta0) /\
+    (~ valid0 /\ valid1 ps /\ m_mark (meta1 ps) * ps <= flen -> open_model rd flen dps = OpenOk ps (meta1 ps)).
+  Proof.
+    intros HP HL. unfold open_model, valid0, valid1, meta0, meta1. rewrite HP.
+    destruct (N.ltb_spec flen (2 * ps)); [lia|]. split.
+    - intros (V0 & V1 & HM). rewrite V0. destruct (validate_at rd (ps + page_header_size)); try tauto; cbn [negb orb];
+        destruct (m_txid _ <? m_txid _); destruct (N.ltb_spec flen (m_mark (rd_meta_at rd page_header_size) * ps)); try lia; reflexivity.
+    - intros (V0 & V1 & HM). rewrite V1. destruct (validate_at rd page_header_size); try tauto; cbn [negb orb];
+        destruct (m_txid _ <? m_txid _); destruct (N.ltb_spec flen (m_mark (rd_meta_at rd (ps + page_header_size)) * ps)); try lia; reflexivity.
+  Qed.
+
+  (** both valid: the one with the larger transaction id (meta 1 only if strictly larger) *)
+  Theorem open_prefers_newer ps :
+    page_size_model rd flen dps (validate_at rd page_header_size) = Some ps -> 2 * ps <= flen ->
+    valid0 -> valid1 ps ->
+    let m := if m_txid meta0 <? m_txid (meta1 ps) then meta1 ps else meta0 in
+    m_mark m * ps <= flen -> open_model rd flen dps = OpenOk ps m.
+  Proof.
+    intros HP HL V0 V1 m HM. unfold open_model. unfold valid0, valid1 in *. rewrite HP.
+    destruct (N.ltb_spec flen (2 * ps)); [lia|]. rewrite V0, V1. cbn [negb orb].
+    subst m. unfold meta0, meta1 in *.
+    destruct (m_txid (rd_meta_at rd page_header_size) <? m_txid (rd_meta_at rd (ps + page_header_size)));
+      match goal with |- context [?a <? ?b] => destruct (N.ltb_spec a b) end; try lia; reflexivity.
+  Qed.
+
+  (** page-size detection with a damaged first meta: the first probe offset 1024*2^i that carries a valid meta
+      is found, provided the earlier probe offsets (inside page 0's zero tail) do not validate *)
+  Lemma probe_second_finds k : forall i pos,
+    (k < i)%nat ->
+    (forall j, (j < k)%nat -> meta_valid_at rd (pos * 2 ^ N.of_nat j + page_header_size) = false) ->
+    meta_valid_at rd (pos * 2 ^ N.of_nat k + page_header_size) = true ->
+    pos * 2 ^ N.of_nat k < flen - 1024 ->
+    probe_second rd flen i pos = Some (m_pagesize (rd_meta_at rd (pos * 2 ^ N.of_nat k + page_header_size))).
+  Proof.
+    induction k as [|k IH]; intros i pos Hi Hinv Hv Hlen.
+    - destruct i as [|i]; [lia|]. cbn [probe_second]. change (2 ^ N.of_nat 0) with 1 in *. rewrite N.mul_1_r in *.
+      destruct (N.leb_spec (flen - 1024) pos); [lia|]. rewrite Hv. reflexivity.
+    - destruct i as [|i]; [lia|]. cbn [probe_second].
+      assert (P : pos * 2 ^ N.of_nat (S k) = (2 * pos) * 2 ^ N.of_nat k).
+      { rewrite Nat2N.inj_succ, N.pow_succ_r'. lia. }
+      assert (Hpos : pos <= pos * 2 ^ N.of_nat (S k)).
+      { rewrite <- (N.mul_1_r pos) at 1. apply N.mul_le_mono_l. pose proof (N.pow_nonzero 2 (N.of_nat (S k))). lia. }
+      destruct (N.leb_spec (flen - 1024) pos); [lia|].
+      pose proof (Hinv O ltac:(lia)) as H0. change (2 ^ N.of_nat 0) with 1 in H0. rewrite N.mul_1_r in H0. rewrite H0.
+      rewrite P in *. apply IH; [lia | | exact Hv | exact Hlen].
+      intros j Hj. specialize (Hinv (S j) ltac:(lia)).
+      replace (pos * 2 ^ N.of_nat (S j)) with (2 * pos * 2 ^ N.of_nat j) in Hinv; [exact Hinv|].
+      rewrite Nat2N.inj_succ, N.pow_succ_r'. lia.
+  Qed.
+End OpenProofs.
